@@ -35,7 +35,7 @@ import (
 func init() {
 	Register(&Spec{
 		ID: "C19", Level: "exploration",
-		Rule:   "cases = chains of record creations (odd cases are born with records in genesis, the last of them byte-identical to the first record created afterwards, by governance; 1..N records per tx, 1..M txs per block, byte-identical contents by the same creator in one tx / one block / different blocks, several creators); monitors: every id returned by a message response must be new; every id is re-read through the query after its block, and all ids periodically and at the end, against the submitted contents, creator and sha256(tx bytes); the raw record store is diffed block to block (only additions, no value ever changes or disappears); non-trivial = a created record whose id/readback relation was evaluated; distinct = distinct (records per tx, duplicate kind, creator, read-back age class)",
+		Rule:   "cases = chains of record creations (odd cases are born with records in genesis, the last of them byte-identical to the first record created afterwards, by governance; 1..N records per tx, 1..M txs per block, byte-identical contents by the same creator in one tx / one block / different blocks, several creators); monitors: every id returned by a message response must be new; every id is re-read through the query after its block, and all ids periodically and at the end, against the submitted contents, creator and sha256(tx bytes); the raw record store is diffed block to block (only additions, no value ever changes or disappears); non-trivial = a created record whose id/readback relation was evaluated; distinct = distinct (records per tx, duplicate kind, creator, read-back age class); since rounds 11-14: reads through the application's query service, ids of simulated transactions looked up before creation, padded / upper-case / non-ASCII digest fields",
 		Assume: []string{"record ids are the hex strings returned in MsgCreateRecordResponse", "tx hash is the upper-case hex sha256 of the tx bytes as the module reports it"},
 		Cases:  func(t string) int { return tierN(t, 16, 32) },
 		Run:    runRecord,
